@@ -85,6 +85,7 @@ def run_send(c: dict):
     tmpl = real_template(n)
     raised = False
     cb = []
+    run_send.unexpected = None
     try:
         if c.get("via", "send") == "terminal":
             from tupimage import graphics_terminal as gt
@@ -95,6 +96,9 @@ def run_send(c: dict):
                 term.send_command(obj)
             except ValueError:
                 raised = True
+            except Exception as e:  # not an outcome the model knows: reported as a broken correspondence
+                raised = True
+                run_send.unexpected = repr(e)[:200]
             cb = None
         else:
             out = Rec()
@@ -102,6 +106,9 @@ def run_send(c: dict):
                 obj.send(out, tmpl, max_size=c["max"], callback=(lambda x: cb.append(x.to_bytes(tmpl))) if c.get("callback", True) else None)
             except ValueError:
                 raised = True
+            except Exception as e:
+                raised = True
+                run_send.unexpected = repr(e)[:200]
             if not c.get("callback", True):
                 cb = None
     finally:
@@ -124,6 +131,8 @@ def check_case(ctx: Ctx, c: dict):
         mx = "none" if c["max"] is None else str(c["max"])
         raised, stream, cb, writes, tmpl = run_send(c)
         model = d.ask(f"send {n} {mx} {tok}")
+        if run_send.unexpected:
+            ctx.mismatch("send raised something other than ValueError", c, run_send.unexpected, model[:40])
         ctx.eq("template", {"k": "template", "layers": n}, hx(tmpl), d.ask(f"template {n}"))
         if model == "err":
             ctx.eq("send raises ValueError", c, raised, True)
